@@ -31,7 +31,7 @@ func (e *Engine) newExec(q string, c *Contract) *Exec {
 	x := &Exec{eng: e, b: NewBank(), mode: c.Mode, qual: q, contract: c,
 		leafCache: map[string][]leaf{}, leafByType: map[types.Type][]leaf{}, abstracted: map[string]int{}, strLits: map[string]*Term{},
 		nameCount: map[string]int{}, usedContracts: map[string]bool{}, usedTrusted: map[string]bool{},
-		addrTaken: map[types.Object]*Term{}, initKeys: map[string]bool{}}
+		addrTaken: map[types.Object]*Term{}, initKeys: map[string]bool{}, anchorHits: map[string]int{}, loopTextHits: map[string]int{}}
 	return x
 }
 
@@ -317,6 +317,18 @@ func (x *Exec) runFunc(fd *ast.FuncDecl, c *Contract, sc splitCase, first bool) 
 		r = x.runDefers(r, fr)
 		if r != nil {
 			exits = append(exits, r)
+		}
+	}
+	for _, h := range c.LoopTextOrder {
+		if x.loopTextHits[x.qual+"|"+h] == 0 {
+			x.fail("loop header %q matches no loop of %s", h, x.qual)
+			return
+		}
+	}
+	for _, ga := range c.GhostAfter {
+		if x.anchorHits[ga.Anchor] == 0 {
+			x.fail("ghostafter anchor %q matches no statement of %s", ga.Anchor, x.qual)
+			return
 		}
 	}
 	if len(exits) == 0 {
